@@ -453,10 +453,10 @@ const UNION_NAMES: [&str; 3] = ["SearchResult", "Pet", "Subject"];
 const ENUM_NAMES: [&str; 4] = ["Episode", "Color", "Status", "Unit"];
 const SCALAR_NAMES: [&str; 3] = ["DateTime", "URL", "JSON"];
 const INPUT_NAMES: [&str; 5] = ["Filter", "Range", "Point", "Options", "Tree"];
-const FIELD_NAMES: [&str; 26] = [
+const FIELD_NAMES: [&str; 27] = [
     "name", "barks", "meows", "age", "weight", "isActive", "createdAt", "snake_case_field", "ownerId", "homepage",
     "score", "title", "body", "SCREAMING", "PascalField", "_leading", "field2", "nickName", "e_mail", "x",
-    "type", "in", "ref", "match", "loop", "yield",
+    "type", "in", "ref", "match", "loop", "yield", "Self",
 ];
 const LINK_NAMES: [&str; 10] = ["owner", "friend", "friends", "bestFriend", "pets", "author", "items", "parent", "children", "related"];
 const ENUM_VALUES: [&str; 16] = [
